@@ -232,6 +232,24 @@ let handle kind a =
              let (e, se) = show (read_eager_text (prs_of tab) h (t @ [n_of_int 10])) in
              let (l, sl) = show (read_lazy_text (prs_of tab) h (t @ [n_of_int 10])) in
              Some (hex_of_bytes t ^ "|" ^ e ^ "|" ^ l ^ "|" ^ span_str v45 r ^ "/" ^ se ^ "/" ^ sl))
+    | "multi" ->
+        (* the records of one file read into ONE RecordBuf: the model threads the buffer (the
+           previous record read) through read_eager_into *)
+        let h = hctx_of a.(0) a.(1) a.(2) a.(3) in
+        let tab = ftab a.(5) in
+        let prev = ref { r_chrom = []; r_pos = n_of_int 1; r_ids = []; r_ref = []; r_alts = []; r_qual = None;
+                         r_filters = []; r_info = []; r_keys = []; r_samples = [] } in
+        let one rs =
+          let r = rec_of rs in
+          match write_line (fmt_of tab) h r with
+          | None -> "WErr"
+          | Some t ->
+              let show o = match o with None -> "Err" | Some x -> rec_str x in
+              let e = read_eager_into (prs_of tab) !prev h (frame (t @ [n_of_int 10])) in
+              (match e with Some x -> prev := x | None -> ());
+              hex_of_bytes t ^ "|" ^ show e
+              ^ "|" ^ show (read_lazy_text (prs_of tab) h (t @ [n_of_int 10])) in
+        Some (String.concat "^" (List.map one (split_on '^' a.(4))))
     | "ltxt" ->
         let h = hctx_of a.(0) a.(1) a.(2) a.(3) in
         let tab = ftab a.(5) in
